@@ -14,15 +14,15 @@
 (***************************************************************************)
 EXTENDS Integers, Sequences, FiniteSets, TLC
 
+SX == INSTANCE SequencesExt
+
 CONSTANTS MulOp(_, _), InvOp(_), AddOp(_, _)
 
 Rows(M) == Len(M)
 Cols(M) == IF Len(M) = 0 THEN 0 ELSE Len(M[1])
 
-RECURSIVE SumR(_, _, _)
-SumR(f, k, acc) == IF k = 0 THEN acc ELSE SumR(f, k - 1, AddOp(acc, f[k]))
-\* xor-sum of a sequence of field elements
-Sum(f) == SumR(f, Len(f), 0)
+\* xor-sum of a sequence of field elements (FoldLeft has a Java implementation in TLC: linear time)
+Sum(f) == SX!FoldLeft(LAMBDA a, b : AddOp(a, b), 0, f)
 
 \* (TLCEval: TLC's function constructors are lazy and not memoised; without forcing them the
 \*  chains of row operations below are re-evaluated on every access)
